@@ -215,6 +215,16 @@ func propC07(r *Run) {
 					present(t.factory, base64.URLEncoding.EncodeToString(append(append([]byte(nil), extra...), t.nonce...))+":"+base64.URLEncoding.EncodeToString(t.ct), fmt.Sprintf("nonce prefixed by %d bytes", len(extra)))
 					present(t.factory, base64.URLEncoding.EncodeToString(t.nonce)+":"+base64.URLEncoding.EncodeToString(append(append([]byte(nil), t.ct...), extra...)), fmt.Sprintf("ciphertext extended by %d bytes", len(extra)))
 				}
+				// text that is not base64 appended to / inserted into either part (a decoder that stops
+				// at the first bad character still has the issued bytes in hand)
+				{
+					parts := strings.SplitN(t.text, ":", 2)
+					for _, junk := range []string{"!", "!junk", "=", "=A", "*", " ", "\n", "%3D", ".AAAA", "\x00"} {
+						present(t.factory, parts[0]+junk+":"+parts[1], fmt.Sprintf("junk %q after the nonce text", junk))
+						present(t.factory, parts[0]+":"+parts[1]+junk, fmt.Sprintf("junk %q after the ciphertext text", junk))
+						present(t.factory, junk+parts[0]+":"+parts[1], fmt.Sprintf("junk %q before the nonce text", junk))
+					}
+				}
 				// the same bytes, split differently between the two parts (canonically re-encoded)
 				all := append(append([]byte(nil), t.nonce...), t.ct...)
 				for k := 0; k <= len(all); k++ {
